@@ -129,6 +129,8 @@ type Broker struct {
 
 	Deliveries []Delivery
 	ConnCount  int
+	// Takeover makes an accepted CONNECT close the connections still open from earlier dials (same client identifier).
+	Takeover bool
 	// AfterConnAck, if set, is called right after an accepting CONNACK was queued (to push messages).
 	AfterConnAck func(b *Broker, c *Conn)
 	// per connection
@@ -408,6 +410,14 @@ func (b *Broker) process(c *Conn, s *bconn, p *Packet) {
 			return
 		}
 		s.connected = true
+		if b.Takeover {
+			// [MQTT-3.1.4-2]: a CONNECT with the client identifier of a connected client ends the existing connection
+			for _, o := range b.Net.Conns {
+				if o != c && o.Peer == Peer(b) && !o.Down() {
+					o.PeerClose("session taken over by a newer connection")
+				}
+			}
+		}
 		if !b.KeepSession || p.Clean {
 			b.wipe()
 		}
